@@ -403,14 +403,20 @@ fn runout_json(r: RunOut) -> J {
 
 struct NullWorker {
     updates: Arc<std::sync::Mutex<Vec<ProgramUpdate>>>,
+    starts: Arc<std::sync::Mutex<Vec<Option<usize>>>>,
 }
 impl quiver_environment::WorkerHandle<NoEffect> for NullWorker {
     fn send(
         &mut self,
         command: quiver_environment::Command<NoEffect>,
     ) -> Result<(), quiver_environment::EnvironmentError> {
-        if let quiver_environment::Command::UpdateProgram(u) = command {
-            self.updates.lock().unwrap().push(u);
+        match command {
+            quiver_environment::Command::UpdateProgram(u) => self.updates.lock().unwrap().push(u),
+            // the remapped entry function the environment starts for each merged program
+            quiver_environment::Command::StartProcess { function_index, .. } => {
+                self.starts.lock().unwrap().push(function_index)
+            }
+            _ => {}
         }
         Ok(())
     }
@@ -718,8 +724,9 @@ fn handle(st: &mut State, req: &J) -> J {
                 .map(|a| a.iter().filter_map(|x| x.as_u64()).map(|x| x as usize).collect())
                 .unwrap_or_default();
             let updates = Arc::new(std::sync::Mutex::new(Vec::new()));
+            let starts = Arc::new(std::sync::Mutex::new(Vec::new()));
             let workers: Vec<Box<dyn quiver_environment::WorkerHandle<NoEffect>>> =
-                vec![Box::new(NullWorker { updates: updates.clone() })];
+                vec![Box::new(NullWorker { updates: updates.clone(), starts: starts.clone() })];
             let mut env = quiver_environment::Environment::<NoEffect>::new(workers);
             let mut entries = Vec::new();
             for h in &hs {
@@ -743,7 +750,9 @@ fn handle(st: &mut State, req: &J) -> J {
             let j = serde_json::to_value(&merged).unwrap();
             let compat = compat_json(&merged);
             st.progs.push(Loaded { bytecode: merged });
-            json!({"ok": true, "h": st.progs.len() - 1, "bytecode": j, "compat": compat, "updates": n_updates})
+            let entries: Vec<Option<usize>> = starts.lock().unwrap().clone();
+            json!({"ok": true, "h": st.progs.len() - 1, "bytecode": j, "compat": compat, "updates": n_updates,
+                   "entries": entries})
         }
         "set_entry" => {
             let h = match get_h(st, req) { Ok(h) => h, Err(e) => return e };
